@@ -172,6 +172,9 @@ function makeWorld(spec) {
         const rec = { t: 'upd' }
         pending.push({ rec, fn: v })
         es.push([k, rec])
+      } else if (V.isModelListener(k) && Array.isArray(v) && v.every((f) => typeof f === 'function' && !f.__fn)) {
+        const xs = v.map((f) => { const rec = { t: 'upd' }; pending.push({ rec, fn: f }); return rec })
+        es.push([k, { t: 'arr', xs }])
       } else es.push([k, canon(v, d + 1)])
     }
     return { t: 'obj', es }
